@@ -21,26 +21,30 @@ RULE = ("every front/on/behind sign sequence of length 0..6 (quick) / 0..8 (thor
 TRUSTED = ["Coq 8.16.1 kernel, vm_compute for the correspondence evaluation",
            "axioms (Print Assumptions): ClassicalDedekindReals.sig_forall_dec, sig_not_dec, "
            "FunctionalExtensionality.functional_extensionality_dep, Classical_Prop.classic (all Coq stdlib Reals)",
-           "tools/symtrace.py tracing translator + numpy shim (re-validated numerically each run); 16 fixed-size traces of "
+           "tools/symtrace.py tracing translator + numpy shim (re-validated numerically each run); 17 fixed-size traces of "
            "Polyline.sliced_by_plane (symbolic vertices and plane) tie the list-level model to the code per sign scenario",
            "coq/Agree.v agreement relation (tolerance 1e-9 relative to the input magnitude; sign sequences compared "
            "only when every |signed distance| > 1e-8 * magnitude unless arithmetic is exact)",
            "NumPy, vg"]
 CASE_IMPORTS = [("PW.model", "M_plane"), ("PW.model", "M_polyline_base"), ("PW.model", "M_polyline_slice"),
            ("PW.model", "M_polyline_slice_spec")]
-# theorems that only restate a definition of the specification (closed by reflexivity)
-DEFINITIONAL = ["C06_extension_points"]
+IMPORTS = CASE_IMPORTS
+# theorems that only restate a definition of the specification / the literal flag of the model (closed by unfolding)
+DEFINITIONAL = ["C06_extension_points", "C06_result_is_open", "C06_spec_vocabulary"]
 ASSUMPTIONS = ["theorems are about exact real arithmetic. For vertices within rounding error of the plane (their side is "
                "whatever binary64 computes) nothing is proved: the sign-independent clauses (finite rows, not behind beyond "
                "rounding, only ValueError, open result) are checked on the sampled near_plane (axis-aligned, exact) and "
                "near_oblique streams; the classification-dependent clauses are not judged for them",
-               "the model and theorems describe the code with fixes/C06-closed-slice.diff and "
-               "fixes/C06-crossing-from-signed-distances.diff applied"]
+               "the model and theorems describe the code of /repo including the repairs b8558f7 (closed roll, "
+               "fixes/C06-closed-slice.diff) and eedfc5c (crossing point from the signed distances, "
+               "fixes/C06-crossing-from-signed-distances.diff)",
+               "overflow corner, outside every stream (scales stop at 2^30): for |coordinate| above ~8.9e307 the difference "
+               "d_p - d_q overflows and sliced_by_plane returns a NaN coordinate, e.g. Polyline([[-1e308,0,0],[1e308,0,0]]) "
+               "sliced by x = 0 gives [[nan,0,0],[1e308,0,0]]; 1e200 and 1e-320 are fine. The literal reading of 'all "
+               "coordinates finite for all polylines' fails there; recorded here, not repaired",
+               "tolerances are relative to the largest |coordinate| of the case (reference point and vertices), without an "
+               "absolute floor: values 1e-9 * mag, not-behind and the decision band 1e-8 * mag"]
 
-IMPORTS = [("PW.model", "M_plane"), ("PW.model", "M_polyline_base"), ("PW.model", "M_polyline_slice"),
-           ("PW.model", "M_polyline_slice_spec")]
-# theorems that only restate a definition of the specification (closed by reflexivity)
-DEFINITIONAL = ["C06_extension_points"]
 
 
 def kernels():
@@ -291,7 +295,7 @@ def _near_oblique_cases(rng, tier):
 
 def gen_cases(rng, n, tier):
     cases = _near_plane_cases(rng, tier) + _near_oblique_cases(rng, tier)
-    if tier != "search" or True:
+    if True:
         for k in range(0, MAXLEN[tier] + 1):
             for signs in itertools.product((-1, 0, 1), repeat=k):
                 for closed in (False, True):
@@ -437,7 +441,7 @@ def expected_slice(ref, nrm, vs, closed, exact):
     """The property text, in exact arithmetic. Returns ("undecided",) | ("ValueError",) | ("ok", points, (i0, count))
     where points are exact Fractions and the run starts at vertex i0."""
     n = len(vs)
-    mag = max([1] + [abs(x) for x in ref] + [abs(x) for p in vs for x in p])
+    mag = max([Fr(0)] + [abs(x) for x in ref] + [abs(x) for p in vs for x in p])
     sds = [_dot([a - b for a, b in zip(p, ref)], nrm) for p in vs]
     if not exact and any(abs(s) <= Fr(1, 10 ** 8) * mag for s in sds):
         return ("undecided",)
@@ -485,7 +489,7 @@ def _sign_independent(c, o, ref, nrm, vs):
         return "input vertices were modified"
     if not o["second_call_same"]:
         return "a second call on the same polyline gave a different answer"
-    mag = max([1] + [abs(x) for x in ref] + [abs(x) for p in vs for x in p])
+    mag = max([Fr(0)] + [abs(x) for x in ref] + [abs(x) for p in vs for x in p])
     for i, r in enumerate(o["v"]):
         if any(x != x or x in (float("inf"), float("-inf")) for x in r):
             return "row %d is not finite: %r" % (i, r)
@@ -494,6 +498,30 @@ def _sign_independent(c, o, ref, nrm, vs):
             return "row %d is behind the plane (signed distance %g)" % (i, float(sd))
     if len(o["v"]) == 0:
         return "returned an empty polyline"
+    return None
+
+
+def _undecided_content(c, o, ref, nrm, vs):
+    """Some vertex is within rounding error of the plane, so the run and the refusals cannot be told; but whatever side
+    binary64 gives those vertices, every vertex that is CLEARLY in front belongs to the run: if a polyline is returned
+    it contains each of them bit-identically, in path order (cyclically for a closed polyline)."""
+    if "raise" in o:
+        return None
+    mag = max([Fr(0)] + [abs(x) for x in ref] + [abs(x) for p in vs for x in p])
+    sds = [_dot([a - b for a, b in zip(p, ref)], nrm) for p in vs]
+    front = [i for i, sd in enumerate(sds) if sd > Fr(1, 10 ** 8) * mag]
+    rows = o["v"]
+    where = []
+    for i in front:
+        js = [j for j, r in enumerate(rows) if r == c["v"][i]]
+        if not js:
+            return "vertex %d is clearly in front (signed distance %g) but is not in the returned polyline" % (i, float(sds[i]))
+        where.append(js)
+    if all(len(js) == 1 for js in where):
+        seq = [js[0] for js in where]
+        descents = sum(1 for a, b in zip(seq, seq[1:]) if a >= b)
+        if descents > (1 if (c["closed"] and len(vs) > 1) else 0):
+            return "the vertices clearly in front are not returned in path order (row positions %r)" % seq
     return None
 
 
@@ -510,7 +538,7 @@ def oracle(c, o):
         return bad
     exp = expected_slice(ref, nrm, vs, c["closed"], c["exact"])
     if exp[0] == "undecided":
-        return None
+        return _undecided_content(c, o, ref, nrm, vs)
     if "raise" in o:
         if exp[0] == "ValueError":
             return None if o["raise"] == "ValueError" else "raised %s where ValueError is demanded (%s)" % (o["raise"], o.get("msg"))
